@@ -186,6 +186,14 @@ class _Canonical(ast.NodeTransformer):
             if isinstance(st, ast.Expr) and (isinstance(st.value, ast.Name) or (isinstance(st.value, ast.Tuple) and all(isinstance(x, ast.Name) for x in st.value.elts))):
                 continue                    # an expression statement that only names locals does nothing
             if isinstance(st, ast.Assign) and len(st.targets) == 1 and isinstance(st.targets[0], ast.Tuple) and isinstance(st.value, ast.Tuple) \
+                    and len(st.targets[0].elts) == len(st.value.elts) and all(_pure_chain(x) and isinstance(x, ast.Attribute) for x in st.targets[0].elts) \
+                    and all(isinstance(v, (ast.Name, ast.Constant)) for v in st.value.elts) \
+                    and len({ast.unparse(t) for t in st.targets[0].elts}) == len(st.targets[0].elts):
+                # `self.a, self.b = x, y` with plain names on the right: two attribute stores in the same order
+                for t, v in zip(st.targets[0].elts, st.value.elts):
+                    out.append(ast.copy_location(ast.Assign(targets=[t], value=v), st))
+                continue
+            if isinstance(st, ast.Assign) and len(st.targets) == 1 and isinstance(st.targets[0], ast.Tuple) and isinstance(st.value, ast.Tuple) \
                     and len(st.targets[0].elts) == len(st.value.elts) and all(isinstance(x, ast.Name) for x in st.targets[0].elts) \
                     and not all(isinstance(x, ast.Name) for x in st.value.elts) and not any(isinstance(x, ast.Starred) for x in st.value.elts) \
                     and not ({t.id for t in st.targets[0].elts} & {x.id for v in st.value.elts for x in ast.walk(v) if isinstance(x, ast.Name)}) \
@@ -1438,6 +1446,56 @@ def _coalesce_toward_reference(fn: ast.FunctionDef, ref_fn: dict, known: set) ->
                     return _coalesce_toward_reference(fn, ref_fn, known)
 
 
+def _rename_by_role(fn: ast.FunctionDef, ref_fn: dict, known: set) -> None:
+    """A fresh local that plays the part of a reference local which the current function does not mention at all: if giving it
+    that name makes at least two of the expressions it occurs in read as expressions of the reference function, and no other
+    absent reference local does as well, it gets that name (alpha-renaming; the name is free)."""
+    ref_src = ref_fn.get("src", "")
+    if not ref_src:
+        return
+    try:
+        rtree = ast.parse(ref_src)
+    except SyntaxError:
+        return
+    ref_exprs = {ast.unparse(n) for n in ast.walk(rtree) if isinstance(n, (ast.Call, ast.BinOp, ast.Compare, ast.Subscript, ast.Attribute))}
+    params = {p.arg for p in fn.args.posonlyargs + fn.args.args + fn.args.kwonlyargs} | ({fn.args.vararg.arg} if fn.args.vararg else set()) | ({fn.args.kwarg.arg} if fn.args.kwarg else set())
+    if any(isinstance(n, (ast.Global, ast.Nonlocal, ast.Lambda)) or (isinstance(n, ast.FunctionDef) and n is not fn) for n in ast.walk(fn)):
+        return
+    present = {n.id for n in ast.walk(fn) if isinstance(n, ast.Name)} | {a.arg for a in ast.walk(fn) if isinstance(a, ast.arg)}
+    absent = sorted(x for x in known if x not in present and x not in params)
+    fresh = sorted({n.id for n in ast.walk(fn) if isinstance(n, ast.Name) and isinstance(n.ctx, ast.Store)} - known - params)
+    if not absent or not fresh:
+        return
+    import copy as _copy
+    best = {}
+    for t in fresh:
+        hosts = [n for n in ast.walk(fn) if isinstance(n, (ast.Call, ast.BinOp, ast.Compare, ast.Subscript, ast.Attribute))
+                 and any(isinstance(y, ast.Name) and y.id == t for y in ast.walk(n))]
+        for x in absent:
+            score = 0
+            for h in hosts:
+                c = _copy.deepcopy(h)
+                for y in ast.walk(c):
+                    if isinstance(y, ast.Name) and y.id == t:
+                        y.id = x
+                if ast.unparse(c) in ref_exprs and ast.unparse(h) not in ref_exprs:
+                    score += 1
+            if score >= 2:
+                best.setdefault(t, []).append((score, x))
+    taken = set()
+    for t, cands in sorted(best.items()):
+        cands.sort(reverse=True)
+        if len(cands) > 1 and cands[0][0] == cands[1][0]:
+            continue
+        x = cands[0][1]
+        if x in taken or sum(1 for t2, c2 in best.items() if t2 != t and c2 and max(c2)[1] == x) > 0:
+            continue
+        taken.add(x)
+        for n in ast.walk(fn):
+            if isinstance(n, ast.Name) and n.id == t:
+                n.id = x
+
+
 def _delay_snapshot_mutation(fn: ast.FunctionDef, known: set) -> None:
     """`t = self.a` / `self.a ^= K` / ... uses of t ...   ->   `t = self.a` / ... uses of t ... / `self.a ^= K`: an update of
     an attribute whose old value was saved in a fresh local moves behind the last use of that local, when nothing in between
@@ -1781,6 +1839,7 @@ def canonicalise(tree: ast.Module, rel: str = "") -> ast.Module:
                             canon.enumerate_to_counter(n, rf, known)
                             canon.hoist_common_tail(n, rf)
                             canon.normalise_control_flow(n, rf.get("tests", []), rf.get("forms", {}))
+                            canon.adopt_reference_tests(n, rf)
                             canon.hoist_common_tail(n, rf)
                     for _round in range(3):
                         rename()
@@ -1804,6 +1863,7 @@ def canonicalise(tree: ast.Module, rel: str = "") -> ast.Module:
                             _extract_toward_reference(n, rf, known)
                             _restore_aug_mask(n, rf, known)
                             _coalesce_toward_reference(n, rf, known)
+                            _rename_by_role(n, rf, known)
                         shape()
                         _Canonical().visit(n)
                         now = ast.dump(n)
